@@ -1,10 +1,13 @@
 import CedarVerif.Lemmas.SyntaxSound
 import CedarVerif.Lemmas.SyntaxSplitOn
 import CedarVerif.Lemmas.SyntaxPolicy
+import CedarVerif.Lemmas.SyntaxPolicySound
+import CedarVerif.Lemmas.SyntaxLex
+import CedarVerif.Lemmas.SyntaxLexWF
 import CedarVerif.Cedar.Eval
 /-
 C05 — policy text → AST → text round trip.  Property theorems (every `theorem` here is an obligation).
-Model: Cedar/Syntax/{Token,Escape,Print,Parse}.lean.
+Model: Cedar/Syntax/{Token,Escape,Print,Parse,PolicyPrint,PolicyParse,Lex}.lean.
 
 What is proved about `Parse.expr (Print.expr me e) = some e` (for every escape table `me`):
 * `parse_print_full : ParsePrintFull` — THE FULL STATEMENT: for every AST in `ParserImage` (what `cst_to_ast` can produce).
@@ -38,13 +41,23 @@ Lemmas/SyntaxPolicy.lean):
 * `annotation_round_trip` — annotation values with arbitrary content survive `escape_debug` printing and unescaping.
 * `policy_round_trip_text` — from text: a token list the model parser accepts with a result in `PolicyImage` re-parses
   to the same object after printing.
-* `PolicyParseImage` (a `def … : Prop`, NOT proved): the policy parser only returns `PolicyImage` objects on well-formed
-  tokens.  Missing: the parser-invariant induction for `parseAnnots`/`scopeElem`/`actionElem`/`parseConds` (the expression
-  part is `parse_image`), including that `foldr insertAnn` sorts and that `mkAnd`-folding stays in `ParserImage`.
-  Until then the several-clause forms (`when … unless …`) enter the theorems through their folded image only; that the
-  fold is what Rust computes is checked by the `polparse` correspondence lines.
-Not covered by theorems: the lexer (text → tokens; checked on the implementation by the harness, whose tokenizer is
-trusted); policy sets; the EST printer; the nesting-depth limit of the real parser (the model has none).
+* `policy_parse_image : PolicyParseImage` — soundness of the policy image predicate: on well-formed tokens (`TokWF`) the
+  policy parser only returns `PolicyImage` objects (parser-invariant induction for `parseAnnots` / `scopeElem` / `actionElem` /
+  `parseConds`, Lemmas/SyntaxPolicySound.lean: `foldr insertAnn` sorts a duplicate-free list, `mkAnd`-folding of several
+  `when`/`unless` clauses stays in `ParserImage` and slot-free).  No parser arm leaves the image.
+* `policy_round_trip_text_full` — from text WITHOUT an image hypothesis: whatever well-formed token list the model parser
+  accepts (any number of clauses), printing the result and parsing again gives the same object.
+LEXER (model: Cedar/Syntax/Lex.lean, mirror of the `match { … }` block of grammar.lalrpop: `\s*`, `//` comments, identifiers /
+keywords, `[0-9]+` by value, `"(\\.|[^"\\])*"` kept raw, slots, two-character punctuation first; proofs: Lemmas/SyntaxLex.lean):
+* `lex_tokWF` — the lexer only returns identifier-shaped `IDENTIFIER` tokens (the `TokWF` hypothesis of the parser theorems);
+  `policy_round_trip_chars` — from characters: any text `lex` + `parsePolicy` accept round-trips, no side hypothesis.
+* `lex_print` — for every list `ts` of lexer-producible tokens (`TokOK`: identifier-shaped `IDENTIFIER`s, string tokens
+  matching the `STRINGLIT` body regex, slots `?ident`; full token alphabet), `lex (render ts) = some ts`, `render` = tokens
+  separated by single spaces (the harness's `render`; Rust's `Display` uses tighter spacing — its output is covered by the
+  `(lex …)` / `(lexpolparse …)` correspondence lines, not by this theorem).
+Not covered by theorems: that the printers' tokens satisfy `TokOK` (identifiers come from `ParserImage` ASTs, string tokens
+from `escapeStr`: plausible, not proved); the exact spacing of `Display`; policy sets;
+the EST printer; the nesting-depth limit of the real parser (the model has none).
 -/
 namespace Cedar.C05
 open Cedar Cedar.Syntax
@@ -590,10 +603,27 @@ theorem policy_round_trip_text (mustEscape : Char → Bool) (id : String) (ts : 
     parsePolicy b.id (printPolicy mustEscape b) = parsePolicy id ts := by
   rw [h]; exact policy_parse_print mustEscape b hi
 
-/-- NOT PROVED (kept visible): soundness of `PolicyImage` — on well-formed tokens the policy parser only returns objects
-of the image.  With it `policy_round_trip_text` loses its hypothesis `hi`. -/
+/-- Soundness of `PolicyImage` (statement): on well-formed tokens the policy parser only returns objects of the image. -/
 def PolicyParseImage : Prop :=
   ∀ (id : String) (ts : List Token) (b : TemplateBody), TokWF ts → parsePolicy id ts = some b → PolicyImage b = true
+
+/-- **Soundness of the policy image predicate**: on well-formed tokens (`TokWF`: `IDENTIFIER` tokens have identifier syntax)
+`parsePolicy` only returns `PolicyImage` objects — the annotation list is strictly key-sorted (`foldr insertAnn` of a
+duplicate-free list), every type name after `is` / in an entity literal is valid, the action uids are action-typed, and the
+condition (one clause, or several `when`/`unless` clauses folded with the builder's `and`) is in `ParserImage` and slot-free.
+No arm of the model parser leaves the image.  (Parser-invariant induction: Lemmas/SyntaxPolicySound.lean on top of
+`parseFuel_sound`.) -/
+theorem policy_parse_image : PolicyParseImage := fun id ts b hwf h =>
+  policyOKW_mono (fun _ => typeNameOk_valid) (fun e he => inFrag3_parserImage (sz3 e) e (Nat.le_refl _) he)
+    (parsePolicyF_sound splitOn_joinName _ id ts b hwf h)
+
+/-- **From text, no image hypothesis**: whatever well-formed token list the model parser accepts (any annotations, scope
+forms, any number of `when`/`unless` clauses), printing the result (any escape table) and parsing again gives the same
+object. -/
+theorem policy_round_trip_text_full (mustEscape : Char → Bool) (id : String) (ts : List Token) (hwf : TokWF ts)
+    (b : TemplateBody) (h : parsePolicy id ts = some b) :
+    parsePolicy b.id (printPolicy mustEscape b) = parsePolicy id ts :=
+  policy_round_trip_text mustEscape id ts b h (policy_parse_image id ts b hwf h)
 
 -- non-vacuity: the template
 --   @id("a\"b") permit(principal == ?principal, action, resource is Ns::User in ?resource)
@@ -615,6 +645,19 @@ example : (parsePolicy "p0" samplePolicyTokens).map (·.nonScope) = some sampleP
 example : (parsePolicy "p0" samplePolicyTokens).map (fun b => (b.annotations, b.principalC, b.actionC, b.resourceC)) =
     some ([("id", "a\"b")], .eq .slot, .any, .isIn "Ns::User" .slot) := by rfl
 
+theorem samplePolicyTokens_wf : TokWF samplePolicyTokens := by
+  intro s hs
+  simp only [samplePolicyTokens, List.mem_cons, Token.ident.injEq, reduceCtorEq, false_or, List.mem_nil_iff, or_false] at hs
+  rcases hs with rfl | rfl | rfl | rfl | rfl | rfl | rfl | rfl | rfl | rfl | rfl | rfl | rfl | rfl | rfl | rfl <;> decide
+
+-- non-vacuity of `policy_parse_image` / `policy_round_trip_text_full`: a two-clause text (`when … unless …`)
+example : (parsePolicy "p0" samplePolicyTokens).map PolicyImage = some true := by
+  cases h : parsePolicy "p0" samplePolicyTokens with
+  | none => have : (parsePolicy "p0" samplePolicyTokens).isSome = true := by rfl
+            rw [h] at this; cases this
+  | some b => simp [policy_parse_image "p0" samplePolicyTokens b samplePolicyTokens_wf h]
+example : (parsePolicy "p0" samplePolicyTokens).isSome = true := by rfl
+
 theorem samplePolicy_image : PolicyImage samplePolicy = true := by
   simp [PolicyImage, samplePolicy, policyOKW, sortedAnn, scopeOKW, refOKW, actionOKW, condOKW, validTypeName,
     splitOn_NsUser, ParserImage, Expr.slots] <;> decide
@@ -633,5 +676,51 @@ example : printPolicy (fun _ => false) samplePolicy =
   simp [printPolicy, samplePolicy, printAnnots, printScope, printAction, printCond, printE, refExpr, nameTokens, splitOn_NsUser,
     effectName, slotName, varName, paren, needsParens, isAnd, keyTok, strTok, isNormalizedIdent]
   decide
+
+/-! ### the lexer -/
+
+/-- **Lexing a printed token list gives the token list back**: for every list of lexer-producible tokens (`TokOK`:
+`IDENTIFIER` tokens are identifier-shaped `[_a-zA-Z][_a-zA-Z0-9]*`, string tokens hold text of the form `(\\.|[^"\\])*` — e.g.
+anything `escape_debug` prints —, slot tokens are `?` + identifier; numbers and punctuation unrestricted), the model lexer
+(`Cedar/Syntax/Lex.lean`, mirror of the `match { … }` block of grammar.lalrpop) maps the text `render ts` (tokens separated
+by single spaces) to `ts`.  Full alphabet of `Token`. -/
+theorem lex_print (ts : List Token) (h : ∀ t ∈ ts, TokOK t = true) : lex (render ts) = some ts :=
+  lexFuel_render ts h _ (Nat.lt_succ_self _)
+
+-- non-vacuity: the sample template's tokens (annotation with an escaped quote, slots, `::`, `==`, `&&`-free two-clause text)
+example : lex (render samplePolicyTokens) = some samplePolicyTokens := lex_print _ (by decide +kernel)
+-- what the lexer does with comments, odd spacing, maximal munch, leading zeros, keywords, escapes
+example : lex "permit(principal,action,resource)when{007<=x1&&!(a!=b)||\"q\\\"\"like\"*\"};// done".toList =
+    some [.ident "permit", .lparen, .ident "principal", .comma, .ident "action", .comma, .ident "resource", .rparen, .ident "when", .lbrace,
+      .num 7, .le, .ident "x1", .andand, .bang, .lparen, .ident "a", .neq, .ident "b", .rparen, .oror, .str ['q', '\\', '"'],
+      .ident "like", .str ['*'], .rbrace, .semi] := by decide +kernel
+example : lex "a // c\n\t/ b::c ?principal == = ".toList =
+    some [.ident "a", .slash, .ident "b", .dcolon, .ident "c", .slot "?principal", .eqeq, .eq] := by decide +kernel
+example : lex "\"a\\\nb\"".toList = none := by decide +kernel   -- backslash-newline inside a string token
+example : lex "a & b".toList = none := by decide +kernel
+example : lex "\"abc".toList = none := by decide +kernel
+example : lex "? x".toList = none := by decide +kernel
+
+/-- the lexer guarantees the well-formedness the parser theorems assume: every `IDENTIFIER` token it returns is
+identifier-shaped -/
+theorem lex_tokWF (cs : List Char) (ts : List Token) (h : lex cs = some ts) : TokWF ts :=
+  lexFuel_tokWF _ cs ts h
+
+/-- **From characters**: whatever policy TEXT the model lexer + parser accept, printing the parsed object (any escape table)
+and parsing the tokens again gives the same object — no hypothesis on tokens or image left. -/
+theorem policy_round_trip_chars (mustEscape : Char → Bool) (id : String) (text : List Char) (ts : List Token) (b : TemplateBody)
+    (hl : lex text = some ts) (h : parsePolicy id ts = some b) :
+    parsePolicy b.id (printPolicy mustEscape b) = some b := by
+  rw [policy_round_trip_text_full mustEscape id ts (lex_tokWF text ts hl) b h, h]
+
+example : ∃ b, parsePolicy "p" ((lex "@a(\"x\")permit(principal,action,resource)when{1<2}unless{false};".toList).getD []) = some b ∧
+    PolicyImage b = true := by
+  cases h : parsePolicy "p" ((lex "@a(\"x\")permit(principal,action,resource)when{1<2}unless{false};".toList).getD []) with
+  | none => exact absurd h (by decide +kernel)
+  | some b =>
+    refine ⟨b, rfl, policy_parse_image "p" _ b ?_ h⟩
+    cases hl : lex "@a(\"x\")permit(principal,action,resource)when{1<2}unless{false};".toList with
+    | none => intro s hs; simp at hs
+    | some ts => simpa using lex_tokWF _ ts hl
 
 end Cedar.C05
